@@ -17,7 +17,7 @@ every mirrored function, regenerated on each run) and by the `server` correspond
   `server_key_isolation(_run)`, `server_inserts_only_fresh`.
 * where the code is **not** a faithful store (stated exactly, to be checked against the real server):
   `create_stores_despite_parse_error`, `parse_error_masks_duplicate`, `get_after_build` (+ `build_changes_get_counterexample`),
-  `read_requests_write_back`, `contents_failure_is_200_empty`, `missing_id_statuses`, `status_never_created_conflict`,
+  `read_requests_write_back`, `missing_id_statuses`, `status_never_created_conflict`,
   `derived_store_collision_is_200`.
   "Returned unchanged" therefore holds under `Stable L f` (the library's in-place `Create` / `FlattenBatches` /
   `SegmentFile` are the identity on the stored file — for `Create` on a parsed valid file that is property C05):
@@ -42,7 +42,7 @@ variable {F T : Type}
 /-- every function of package server the model mirrors, with the hash of its normalised body -/
 def modelled : List (String × Nat) := [
   ("MakeHTTPHandler", 7355924792161024232), ("codeFrom", 18082956264989600820),
-  ("encodeResponse", 9302670982442540319), ("encodeTextResponse", 7587255246849260234),
+  ("encodeResponse", 9302670982442540319), ("encodeTextResponse", 17490993346791174662),
   ("encodeError", 8754624342635834157), ("marshalStructWithError", 10946647436394874351),
   ("readValidateOpts", 14411612112246954803), ("GetLineEnding", 5589005958046905319),
   ("createFileEndpoint", 7394087492345372775), ("decodeCreateFileRequest", 12080995449744339690),
@@ -66,7 +66,7 @@ def modelled : List (String × Nat) := [
   ("service.GetFile", 14626936114301758146), ("service.GetFiles", 14803411663628934762),
   ("service.BuildFile", 4258440359166792272), ("service.DeleteFile", 405481581686156109),
   ("service.GetFileContents", 7980064745904965632), ("service.ValidateFile", 10572267819059346924),
-  ("service.SegmentFileID", 7888584268474920999), ("service.SegmentFile", 6568083074746594819),
+  ("service.SegmentFileID", 7888584268474920999), ("service.SegmentFile", 8076978809228121562),
   ("service.FlattenBatches", 14220328066971616891), ("service.CreateBatch", 9644805027652575923),
   ("service.GetBatch", 1632467170175104115), ("service.GetBatches", 121674364257705592),
   ("service.DeleteBatch", 2383607826129551808),
@@ -164,16 +164,16 @@ theorem contents_is_writer_output (L : Lib F T) (s : State F) (id : Id) (crlf : 
     (step L s (.contents id crlf)).2 = ⟨.ok, .text t⟩ := by
   simp [step, getFileContents, hf, hc, hw]
 
-/-- **deviation** (routing.go:286-294: a `getFileContentsResponse` is not an `io.Reader`, nothing is written): a
-missing ID, a `Create` error and a writer error are all answered 200 with an empty body -/
-theorem contents_failure_is_200_empty (L : Lib F T) (s : State F) (id : Id) (crlf : Bool)
+/-- a missing ID, a `Create` error and a writer error are answered with an error status and no body
+(before /repo commit f9ebbe96 all three were answered 200 with an empty body) -/
+theorem contents_failure_is_error (L : Lib F T) (s : State F) (id : Id) (crlf : Bool)
     (h : find s.files id = none ∨ ∃ f, find s.files id = some f ∧
       ((L.create f).2.isSome ∨ ∃ e, L.writeText (L.create f).1 crlf = .error e)) :
-    (step L s (.contents id crlf)).2 = ⟨.ok, .none⟩ := by
+    (step L s (.contents id crlf)).2.status ≠ .ok ∧ (step L s (.contents id crlf)).2.body = .none := by
   rcases h with h | ⟨f, hf, hc | ⟨e, he⟩⟩
   · simp [step, getFileContents, h]
   · simp [step, getFileContents, hf, hc]
-  · simp only [step, getFileContents, hf, he]; split <;> rfl
+  · simp only [step, getFileContents, hf, he]; split <;> simp
 
 /-- clause "validate = library": 200 iff `ValidateWith(opts)` accepts the stored file; nothing changes -/
 theorem validate_is_library (L : Lib F T) (s : State F) (id : Id) (opts : Opts) (f : F)
@@ -302,11 +302,11 @@ theorem delete_then_not_found (L : Lib F T) (s : State F) (id : Id) :
   have h : find (step L s (.delete id)).1.files id = none := by simp [step, deleteFile, find_erase_eq]
   exact ⟨rfl, h, by rw [get_returns_stored, h]⟩
 
-/-- **status deviations** for an ID that is not stored: contents 200 (empty), validate 400, build 500, list-batches
+/-- **status deviations** for an ID that is not stored: contents 500 (the wrapped "not found"), validate 400, build 500, list-batches
 200 `null`, delete-batch 500, delete 200; only get / flatten / segment / add-batch / get-batch say 404 -/
 theorem missing_id_statuses (L : Lib F T) (s : State F) (id bid : Id) (b : Batch) (o : Opts) (c : Bool)
     (h : find s.files id = none) :
-    (step L s (.get id)).2.status = .notFound ∧ (step L s (.contents id c)).2 = ⟨.ok, .none⟩ ∧
+    (step L s (.get id)).2.status = .notFound ∧ (step L s (.contents id c)).2 = ⟨.error, .none⟩ ∧
     (step L s (.validate id o)).2.status = .badRequest ∧ (step L s (.build id)).2.status = .error ∧
     (step L s (.flatten id)).2.status = .notFound ∧ (step L s (.segment id)).2.status = .notFound ∧
     (step L s (.addBatch id b)).2.status = .notFound ∧ (step L s (.getBatch id bid)).2.status = .notFound ∧
